@@ -21,6 +21,8 @@ PAYLOADS = {
     "line-separator": "a b",
     "hash-raw": 'a"#b',
 }
+# valid XSD integer lexical forms that are not (all) valid Rust literals
+XSD_LEXICAL = {"plus-sign": "+7", "plus-zero-padded": "+007", "zero-padded": "007", "blank-padded": "  7\t", "minus-zero": "-0"}
 TEXT_POSITIONS = ["enumeration", "numeric-facet", "length-facet", "doc-simple", "doc-complex", "target-namespace",
                   "imported-namespace", "address", "soap-action"]
 MARK = "ZQXMARK"
@@ -120,6 +122,13 @@ def weird_name_matrix():
 
 def payload_matrix():
     out = []
+    for cls, text in XSD_LEXICAL.items():
+        for pos in ("numeric-facet", "length-facet"):
+            if pos == "length-facet" and text.startswith("-"):
+                continue
+            ss = base_program(texts={pos: text})
+            ss.features = {f"payload:xsd-lexical-{cls}", f"text-position:{pos}"}
+            out.append((f"xsd-lexical-{cls}", pos, text, ss))
     for cls, payload in PAYLOADS.items():
         for pos in TEXT_POSITIONS:
             marked = f"{MARK}{payload}{MARK}"
